@@ -1,6 +1,6 @@
 (* The output of the sanitizer, re-read by the tokenizer, is the list of items the loop emitted
-   (adjacent texts merged): for every input and every policy that keeps no comments, does not
-   AllowUnsafe and allows no raw-text element.  This lifts the item-level theorems of LoopProps
+   (adjacent texts merged): for every input and every policy that does not AllowUnsafe and allows
+   no raw-text element (comments may be kept).  This lifts the item-level theorems of LoopProps
    to the bytes of the output as a parser reads them. *)
 From Coq Require Import List NArith ZArith Bool Lia.
 Import ListNotations.
@@ -22,9 +22,9 @@ Section SanRoundTrip.
   Variable I : interp M U R.
   Variable p : policy M U R.
 
-  (* the class of policies: nothing that makes the output contain raw text or comments *)
+  (* the class of policies: nothing that makes the output contain raw text *)
   Definition plain_policy : Prop :=
-    allowComments p = false /\ allowUnsafe p = false /\
+    allowUnsafe p = false /\
     forall n, is_raw_name n = true -> elem_allowed I p n = false.
 
   Hypothesis Hplain : plain_policy.
@@ -39,7 +39,7 @@ Section SanRoundTrip.
   Lemma not_raw_of_policies n aps : element_policies I p n = Some aps -> is_raw_name n = false.
   Proof.
     intros E. destruct (is_raw_name n) eqn:Er; auto.
-    destruct Hplain as (_ & _ & Hr). specialize (Hr n Er).
+    destruct Hplain as (_ & Hr). specialize (Hr n Er).
     rewrite element_policies_allowed, E in Hr. discriminate.
   Qed.
 
@@ -70,7 +70,7 @@ Section SanRoundTrip.
 
   Lemma step_items_ok st t st' out : token_wf t -> step I p st t = Ok st' out -> Forall item_ok out.
   Proof.
-    destruct Hplain as (Hc & Hu & Hr).
+    destruct Hplain as (Hu & Hr).
     intros Hwf. destruct t as [d|n a|n|n a|d|d]; cbn [step].
     - (* text *)
       destruct (skip st); [intros H; inversion H; constructor|].
@@ -105,7 +105,7 @@ Section SanRoundTrip.
         apply single_ok; exact Hit.
       * intros H; inversion H; subst. apply single_ok; exact Hit.
     - (* comment *)
-      rewrite Hc. cbn. intros H; inversion H; constructor.
+      destruct (allowComments p && negb (skip st)); intros H; inversion H; [constructor; [exact Logic.I | constructor] | constructor].
     - (* doctype *)
       intros H; inversion H; constructor.
   Qed.
